@@ -26,6 +26,10 @@ CHECKS = {
     "C15": {"suites": [{"name": "limits", "suite": "limits", "quick": ["--count", 120], "thorough": ["--count", 3000]},
                        {"name": "limits-deep", "suite": "limits-deep", "quick": ["--count", 4], "thorough": ["--count", 40]}],
             "assumptions": INT_ASSUME + ["wall-clock time is an abstract monotone oracle: hook H6 makes the k-th engine check find the limit exceeded; the memory estimate is the modelled function of stack depth and iteration count"]},
+    "C09": {"suites": [{"name": "lp", "suite": "lp", "quick": ["--count", 3000], "thorough": ["--count", 60000]},
+                       {"name": "lp-exh", "suite": "lp", "quick": ["--mode", "exh", "--universe", 1], "thorough": ["--mode", "exh", "--universe", 2]}],
+            "assumptions": ["the simplex pivoting / LU code is not modelled: the theorems are about the terminal certificate (legalOptimal) and the standard-form transformation at exact rationals; that the implementation always ends in a legal state is validated per run by recomputing the certificate exactly from the returned basis, not proved",
+                            "IEEE-754 rounding is outside the theorems; f64 data enter the model as exact rationals of their bit patterns"]},
     "C11": {
         "suites": [
             {"name": "ss", "suite": "ss", "quick": ["--count", 600], "thorough": ["--count", 40000]},
